@@ -25,9 +25,31 @@ FAULTS = [None, ('spawn',), ('no_report',), ('truncate', 4), ('truncate', 0), ('
 
 
 def verdict(mode, ka, kb, imp, su, td, b_on_a, fault, noise):
-    global LAST
     mode = pick(FR.MODES, mode)
     ka, kb = pick(KA, ka), pick(KB, kb)
+    return _verdict(mode, ka, kb, imp, su, td, b_on_a, fault, noise)
+
+
+KO = [W.PASS, W.FAIL, W.FAIL_FIRST, W.ERR_FIRST, W.XPASS]
+OPTS = [('--repeat', '2'), ('-t', '^[ab]'), ('--only-level', '2'), ('--repeat', '2', '-t', '^[ab]'), ('--all', '--only-level', '2'), ('-m', 'w')]
+
+
+def options2(mode, ka, opt, imp):
+    """The verdict under option vectors that re-run or re-select tests: --repeat 2 with a test that misbehaves in its
+    first execution only, test / level selections next to a module that cannot be imported."""
+    mode = pick(FR.MODES, mode)
+    ka = pick(KO, ka)
+    opt = pick(OPTS, opt)
+    return _verdict(mode, ka, W.PASS, imp, 0, 0, False, 0, False, argv=opt, levels=2 if '--only-level' in opt else None)
+
+
+def options2_reach(*a):
+    options2(*a)
+    return LAST[9] is None and LAST[10] is True and LAST[12] and '--repeat' in LAST[12]
+
+
+def _verdict(mode, ka, kb, imp, su, td, b_on_a, fault, noise, argv=(), levels=None):
+    global LAST
     imp, b_on_a, noise = cb(imp), cb(b_on_a), cb(noise)
     su = ci(su, 0, 2)          # 0 none, 1 A.setUp raises, 2 B.setUp raises
     td = ci(td, 0, 2)          # 0 none, 1 A.tearDown raises, 2 B.tearDown raises
@@ -42,12 +64,12 @@ def verdict(mode, ka, kb, imp, su, td, b_on_a, fault, noise):
             tdd['A'] = 2
         sud = {1: {'A': 1}, 2: {'B': 1}}.get(su, {})
         world = FR.World({'a0': W.PASS, 'a1': ka, 'b0': kb, 'b1': W.PASS}, b_on_a=b_on_a, su=sud, td=tdd, imp=imp, noise=noise,
-                         order=['b0', 'a0', 'b1', 'a1'])
-    res = FR.run(world, mode, fault=fault)
+                         order=['b0', 'a0', 'b1', 'a1'], levels={n: levels for n in ('a0', 'a1', 'b0', 'b1')} if levels else None)
+    res = FR.run(world, mode, argv=argv, fault=fault)
     # exit status through the public entry point: run() must exit with int(failed)
     with untraced():
         why, exp = oracle(res, mode, ka, kb, imp, su, td, b_on_a, fault)
-    LAST = (mode, W.KIND_NAMES[ka], W.KIND_NAMES[kb], imp, su, td, b_on_a, fault, noise, why, res.failed, len(res.children))
+    LAST = (mode, W.KIND_NAMES[ka], W.KIND_NAMES[kb], imp, su, td, b_on_a, fault, noise, why, res.failed, len(res.children), tuple(argv))
     return why is None
 
 
@@ -242,6 +264,13 @@ SPEC = {
                                                     'thorough': _B + ' and mode == 1 and ka == 1 and kb == 0 and not imp and su == 0 and td == 0 and fault == 0'},
          'timeout': {'quick': 400, 'thorough': 1700},
          'fidelity': [_v(), _v(mode=1, ka=3), _v(mode=2, fault=1), _v(mode=2, kb=1, imp=True, noise=False), _v(mode=1, su=2, td=1, b_on_a=True)]},
+        {'name': 'options2', 'fn': 'options2', 'params': [('mode', 'int'), ('ka', 'int'), ('opt', 'int'), ('imp', 'bool')], 'call': 'mode, ka, opt, imp',
+         'bounds': {'quick': '0 <= mode < 5 and 0 <= ka < %d and 0 <= opt < %d and (opt == 0 or opt == 3 or ka <= 1) and (mode <= 2 or opt <= 1)' % (len(KO), len(OPTS)),
+                    'thorough': '0 <= mode < 5 and 0 <= ka < %d and 0 <= opt < %d' % (len(KO), len(OPTS))},
+         'slices': {'quick': ['mode == %d' % m for m in range(5)], 'thorough': ['mode == %d and opt == %d' % (m, k) for m in range(5) for k in range(len(OPTS))]},
+         'reach': 'options2_reach', 'reach_bounds': {'quick': 'mode == 1 and ka == 2 and opt == 0 and not imp', 'thorough': 'mode == 1 and ka == 2 and opt == 0 and not imp'},
+         'timeout': {'quick': 400, 'thorough': 1700},
+         'fidelity': [dict(mode=0, ka=2, opt=0, imp=False), dict(mode=1, ka=3, opt=3, imp=True), dict(mode=2, ka=1, opt=2, imp=True), dict(mode=4, ka=0, opt=1, imp=True)]},
         {'name': 'imports', 'fn': 'imports', 'params': [('kind', 'int'), ('which', 'int'), ('mode', 'int')], 'call': 'kind, which, mode',
          'bounds': {'quick': '0 <= kind < %d and 0 <= which <= 1 and 0 <= mode <= 1' % len(IMP_FAIL), 'thorough': '0 <= kind < %d and 0 <= which <= 1 and 0 <= mode <= 1' % len(IMP_FAIL)},
          'slices': {'quick': ['mode == 0', 'mode == 1'], 'thorough': ['mode == 0', 'mode == 1']},
